@@ -255,13 +255,13 @@ def task_bus(t):
 
 def build_tasks(tier):
     tasks = []
-    name_len = 5 if tier == 'quick' else 7
+    name_len = 6 if tier == 'quick' else 7
     for kind in NAME_KINDS:
         tasks.append((task_valenum, (kind, NAME_ALPHA, 1, b'')))
         for a in NAME_ALPHA:
             for b_ in NAME_ALPHA:
                 tasks.append((task_valenum, (kind, NAME_ALPHA, name_len, a + b_)))
-    full_len, small_len = (4, 7) if tier == 'quick' else (5, 8)
+    full_len, small_len = (4, 8) if tier == 'quick' else (5, 8)
     for kind in ('sig', 'sig1'):
         tasks.append((task_valenum, (kind, SIG_FULL, 0, b'')))
         for a in SIG_FULL:
@@ -335,7 +335,7 @@ def run(ctx):
         'rule': 'every string of length <= L over a per-grammar class alphabet (names: 11 classes, L=%d; signatures: 21 codes L<=%d and 8 codes L<=%d; '
                 'UTF-8: 25 boundary bytes, 1-4 byte sequences with and without ASCII context), plus 255-limit and 32-nesting ladders; each string is distinct by construction; '
                 'non-trivial = strings the reference grammar ACCEPTS (the rest exercise rejection reasons); each evaluation compares up to 3 validator entry points, '
-                'the message parser and the bus with the reference' % ((5, 4, 7) if ctx.tier == 'quick' else (7, 5, 8)),
+                'the message parser and the bus with the reference' % ((6, 4, 8) if ctx.tier == 'quick' else (7, 5, 8)),
         'tasks': len(tasks), 'tasks_done': done_tasks,
     })
     ctx.samples = [{'kind': 'bus', 'string': ':1.0'}, {'kind': 'sig', 'string': '(a{i)i}'}, {'kind': 'path', 'string': '/a//'},
